@@ -123,6 +123,22 @@ def make_stream(rng, cfg, ctx=None, max_frames: int = 8, small: bool = False):
         sent.append((fr, d))
         out += hdlc_gen.on_wire(fr, stuffing)
         out += bytes([0x7E]) * rng.choice((1, 1, 1, 2, 3)) if rng.random() < 0.7 or small else hdlc_gen.fill(rng)
+        if not small and rng.random() < 0.1:
+            # ... or is a different frame of the same length that a 32-bit digest of the octets cannot tell from this one
+            tw = hdlc_gen.digest_twin(rng, d)
+            if tw is not None and (stuffing or hdlc_gen.in_plain_domain(tw[0], abort)):
+                sent.append(tw)
+                out += hdlc_gen.on_wire(tw[0], stuffing) + b"\x7e"
+                if ctx is not None:
+                    ctx.count("frames_followed_by_their_crc32_twin")
+        if not small and rng.random() < 0.25:
+            # the next frame starts exactly like this one (same format / length field, same first address octets) but is laid out differently
+            sib = hdlc_gen.sibling(rng, d, ids)
+            if sib is not None and (stuffing or hdlc_gen.in_plain_domain(sib[0], abort)):
+                sent.append(sib)
+                out += hdlc_gen.on_wire(sib[0], stuffing) + b"\x7e"
+                if ctx is not None:
+                    ctx.count("sibling_frames_after_their_look_alike")
     return bytes(out), sent
 
 
